@@ -40,7 +40,7 @@ Fixpoint number (i : N) (l : list (req tpayload)) : list (N * req tpayload) :=
 
 Definition applied (l : list (variant * nat)) (sizes : list nat) : (N * N) * (N * N) :=
   let es := number 1%N (mk_reqs l) in
-  let al := leader_applied tpayload tmsg tbuild tdecodable es (mkAm 0 []) in
+  let al := leader_applied tpayload tmsg tbuild tdecodable thandler_ok es (mkAm 0 []) in
   let af := follower_applied tpayload tmsg tbuild tdecodable (split sizes es) (mkAm 0 []) in
   ((am_last al, last (am_saved al) 0%N), (am_last af, last (am_saved af) 0%N)).
 
